@@ -88,7 +88,10 @@ def run_driver(drv, lines, timeout=1500):
         elif ln.startswith("D "):
             cur["label"] = ln[2:]
         elif ln.startswith("V "):
-            cur["events"].append(parse_event(ln[2:]))
+            try:
+                cur["events"].append(parse_event(ln[2:]))
+            except (IndexError, ValueError):
+                cur["truncated"] = ln       # the driver died while printing this line
         elif ln.startswith("S "):
             cur["states"].append(ln)
         elif ln.startswith("LIVELOCK"):
